@@ -57,6 +57,10 @@ func VerifC16_PPPoEStep() {
 			ss.ClientIP = s.clientIPPool.Allocate(ss.SessionID)
 			vAssume(ss.State != StateClosed) // invariant: a closed session holds no address
 		}
+		for _, other := range sess {
+			// accounting ids are 64 random bits: a collision between two live sessions is assumed away
+			vAssume(other.SessionID != ss.SessionID)
+		}
 		sess = append(sess, ss)
 	}
 	verifPoolConsistent(s, "before")
